@@ -136,7 +136,6 @@ def run(chk):
             src = rng.choice(valids)
             kind, btext, _ = rng.choice(bad_variants(rng, src))
             names = [v[0]["name"] for v in valids]
-            bad_name = rng.choice(["a_bad.f90", "m_bad.f90", "z_bad.f90"])
             with F.Work({f"src/{v[0]['name']}": v[2] for v in valids}) as w:
                 try:
                     base, base_files, _ = project_snapshot(w.root, names, names)
@@ -145,10 +144,16 @@ def run(chk):
                     continue
                 except Exception as e:  # noqa
                     continue   # the valid project itself is rejected (e.g. two programs): not a C20 case
-                w.write(f"src/{bad_name}", btext)
                 # is the bad file rejected at all? (a truncated file may still be a valid file)
-                single = I.parse_text(btext, bad_name, workdir=work)
+                single = I.parse_text(btext, "bad.f90", workdir=work)
+                prev_bad = None
                 for pos in range(nvalid + 1):
+                    # FORD parses files in sorted order: the name places the bad file before / between / after
+                    bad_name = "a_bad.f90" if pos == 0 else f"v{pos - 1}z_bad.f90"
+                    if prev_bad:
+                        (w.root / "src" / prev_bad).unlink()
+                    w.write(f"src/{bad_name}", btext)
+                    prev_bad = bad_name
                     order = names[:pos] + [bad_name] + names[pos:]
                     try:
                         snap, files_now, log = project_snapshot(w.root, order, names)
